@@ -9,16 +9,13 @@ def register_all(w):
         "key": f"{F}::aggregate_node_transformer",
         "base": "NodeTransformer",
         "visit_fn": "agg_lower",                     # IH: self.visit(x) == agg_lower(x)
-        "visit_requires": ["agg_kwfree(node)"],
-        "visit_requires_list": ["all_list(agg_kwfree, nodes)"],
-        "generic_requires": ["agg_kwfree(node)"],
         "properties": ["C19"],
     })
     C.register(w, {
         "key": f"{F}::aggregate_node_transformer.visit_Call",
         "self": f"{F}::aggregate_node_transformer",
         "params": {"node": "py"},
-        "requires": ["isinstance(node, ast.Call)", "wf(node)", "agg_kwfree(node)"],
+        "requires": ["isinstance(node, ast.Call)", "wf(node)"],
         "ensures": ["same(result, agg_lower(node))"],
         "raises": {},
         "modifies": ["*"],     # a NodeTransformer: in-place rewriting of its input is its job
